@@ -30,7 +30,8 @@ Python -> Lean
   (`Env`), instantiated in the driver with values recorded from the real run.
 * the decoder is written once, in the cost-counting monad `R`; `decode` is its result part.
   The cost counts: one per `deserialize_value` call, every byte handed out by `stream.read`,
-  and `len(_fields)` per `Serializable` instance constructed.
+  and `len(_fields)` per `Serializable` instance constructed.  A second counter `re` adds up
+  the lengths of signed payloads that are parsed again after their signature verified.
 -/
 namespace Mpgs.Serial
 
@@ -616,19 +617,24 @@ instance (env : Env) (v : Value) : Decidable (InDomain env v) := by
 
 /-! ## decoder (in the cost-counting monad) -/
 
-/-- result + cost; the cost is kept when the computation raises -/
+/-- result + cost + number of bytes the decoder was made to parse a second time (the signed
+    payload of a server hello whose signature verified); both counters are kept when the
+    computation raises -/
 structure R (α : Type) where
   res : Except Err α
   cost : Nat
+  re : Nat
 
-def R.ok {α : Type} (a : α) : R α := ⟨.ok a, 0⟩
-def R.err {α : Type} (e : Err) : R α := ⟨.error e, 0⟩
-def R.lift {α : Type} (x : Except Err α) : R α := ⟨x, 0⟩
-def R.tick (n : Nat) : R Unit := ⟨.ok (), n⟩
+def R.ok {α : Type} (a : α) : R α := ⟨.ok a, 0, 0⟩
+def R.err {α : Type} (e : Err) : R α := ⟨.error e, 0, 0⟩
+def R.lift {α : Type} (x : Except Err α) : R α := ⟨x, 0, 0⟩
+def R.tick (n : Nat) : R Unit := ⟨.ok (), n, 0⟩
+/-- `temp = BytesIO(payload)`: `n` bytes already read once are about to be parsed again -/
+def R.reparse (n : Nat) : R Unit := ⟨.ok (), 0, n⟩
 def R.bind {α β : Type} (x : R α) (f : α → R β) : R β :=
   match x.res with
-  | .ok a => ⟨(f a).res, x.cost + (f a).cost⟩
-  | .error e => ⟨.error e, x.cost⟩
+  | .ok a => ⟨(f a).res, x.cost + (f a).cost, x.re + (f a).re⟩
+  | .error e => ⟨.error e, x.cost, x.re⟩
 instance : Monad R where
   pure := R.ok
   bind := R.bind
@@ -637,7 +643,7 @@ instance : Monad R where
 def wrapHdrE {α : Type} : Except Err α → Except Err α
   | .error .headerError => .error .serializableError
   | r => r
-def R.wrapHdr {α : Type} (x : R α) : R α := ⟨wrapHdrE x.res, x.cost⟩
+def R.wrapHdr {α : Type} (x : R α) : R α := ⟨wrapHdrE x.res, x.cost, x.re⟩
 
 /-- `stream.read(n)`; costs the bytes handed out -/
 def readN (n : Int) (bs : Bytes) : Bytes × Bytes :=
@@ -645,12 +651,12 @@ def readN (n : Int) (bs : Bytes) : Bytes × Bytes :=
 
 /-- `struct.unpack(fmt, stream.read(w))`: exactly `w` bytes or `struct.error` -/
 def readFixed (w : Nat) (bs : Bytes) : R (Bytes × Bytes) :=
-  if w ≤ bs.length then ⟨.ok (bs.take w, bs.drop w), w⟩ else ⟨.error .structError, bs.length⟩
+  if w ≤ bs.length then ⟨.ok (bs.take w, bs.drop w), w, 0⟩ else ⟨.error .structError, bs.length, 0⟩
 
 /-- `struct.unpack(">f", stream.read(4))`, kept as the bit pattern -/
 def readF32 : Bytes → R (Value × Bytes)
-  | a :: b :: c :: d :: r' => ⟨.ok (.f32 a b c d, r'), 4⟩
-  | r => ⟨.error .structError, r.length⟩
+  | a :: b :: c :: d :: r' => ⟨.ok (.f32 a b c d, r'), 4, 0⟩
+  | r => ⟨.error .structError, r.length, 0⟩
 
 /-- `isinstance(length, int)` (bool is an int) -/
 def lenOf : Value → Except Err Int
@@ -786,6 +792,7 @@ def decodeReg (env : Env) : Nat → Nat → Kind → Bytes → R (Value × Bytes
       match sig, payload with
       | .bytes s, .bytes p => do
         R.lift (env.verify key s p)
+        R.reparse p.length
         let (der, t1) ← decodeC env f p
         let k ← R.lift (asKeyBytes env der)
         let (salt, t2) ← decodeC env f t1
@@ -836,5 +843,9 @@ def decodeMany (env : Env) : Nat → Bytes → Except Err (List Value × Bytes)
 
 /-- what the algorithm requested while decoding `bs` -/
 def decodeCost (env : Env) (bs : Bytes) : Nat := (decodeC env (bs.length + 1) bs).cost
+
+/-- bytes parsed a second time while decoding `bs`: total length of the server-hello payloads
+    whose signature verified (0 unless a verification succeeds) -/
+def decodeReparsed (env : Env) (bs : Bytes) : Nat := (decodeC env (bs.length + 1) bs).re
 
 end Mpgs.Serial
